@@ -4,6 +4,7 @@ package main
 
 import (
 	"fmt"
+	"regexp"
 	"go/constant"
 	"go/token"
 	"go/types"
@@ -25,6 +26,7 @@ type Obligation struct {
 	Pos    string
 	Src    string // contract source text or Go expression text
 	Inputs map[string]*Term
+	Props  []string // properties this obligation is attributed to
 }
 
 type Exec struct {
@@ -151,6 +153,7 @@ func (x *Exec) oblige(fr *Frame, st *State, kind, detail, label string, goal *Te
 		name = x.oblName(fname, kind, label)
 	}
 	o := &Obligation{Name: name, Kind: kind, Func: fname, Label: label, Guard: st.guard, Goal: goal, NFacts: len(x.facts), Src: src}
+	o.Props = x.attribute(fr, kind, label)
 	if pos.IsValid() {
 		o.Pos = x.fset.Position(pos).String()
 	}
@@ -223,7 +226,13 @@ func trunc(s string, n int) string {
 	return s
 }
 
-func (x *Exec) slen(s *Term) *Term { x.useAxioms("str"); return x.ctx.App("slen", IntSort, s) }
+func (x *Exec) slen(s *Term) *Term {
+	x.useAxioms("str")
+	if s.Op == "ite" {
+		return Ite(s.Args[0], x.slen(s.Args[1]), x.slen(s.Args[2]))
+	}
+	return x.ctx.App("slen", IntSort, s)
+}
 func (x *Exec) sbytes(s *Term) *Term {
 	x.useAxioms("str")
 	return x.ctx.App("sbytes", ArraySort(IntSort, IntSort), s)
@@ -231,13 +240,21 @@ func (x *Exec) sbytes(s *Term) *Term {
 func (x *Exec) sat(s, i *Term) *Term { return Select(x.sbytes(s), i) }
 func (x *Exec) substr(s, lo, hi *Term) *Term {
 	x.useAxioms("substr")
+	// substr(substr(t,c,d),a,b) = substr(t,c+a,c+b) (in bounds, which Go guarantees for executed slices)
+	if s.Op == "ite" {
+		return Ite(s.Args[0], x.substr(s.Args[1], lo, hi), x.substr(s.Args[2], lo, hi))
+	}
+	if s.Op == "app" && s.Name == "substr" {
+		c := s.Args[1]
+		return x.ctx.App("substr", StrSort, s.Args[0], Add(c, lo), Add(c, hi))
+	}
 	return x.ctx.App("substr", StrSort, s, lo, hi)
 }
 func (x *Exec) mkstr(arr, off, n *Term) *Term {
 	x.useAxioms("mkstr")
 	t := x.ctx.App("mkstr", StrSort, arr, off, n)
 	// the defining facts are instantiated per term (quantifying over array sorts makes z3 give up)
-	if !x.mkstrSeen[t.String()] {
+	if !x.mkstrSeen[t.String()] && !termHasBoundVar(t) {
 		x.mkstrSeen[t.String()] = true
 		i := BoundVar("i", IntSort)
 		x.perm = append(x.perm,
@@ -278,6 +295,24 @@ func (x *Exec) hasPrefixTerm(s, p *Term) *Term {
 	}
 	x.useAxioms("prefix")
 	return x.ctx.App("hasPrefix", BoolSort, s, p)
+}
+
+func (x *Exec) indexByte(s, c *Term) *Term {
+	x.useAxioms("indexbyte")
+	return x.ctx.App("indexByte", IntSort, s, c)
+}
+
+func (x *Exec) lastIndexByte(s, c *Term) *Term {
+	x.useAxioms("indexbyte")
+	return x.ctx.App("lastIndexByte", IntSort, s, c)
+}
+
+// singleByteLit: the byte of a one-byte string literal.
+func (x *Exec) singleByteLit(t *Term) (*Term, bool) {
+	if c, ok := x.litContent(t); ok && len(c) == 1 {
+		return IntLit(int64(c[0])), true
+	}
+	return nil, false
 }
 
 func (x *Exec) hasSuffixTerm(s, p *Term) *Term {
@@ -888,6 +923,7 @@ func (x *Exec) enterLoop(fr *Frame, li *loopInfo, entry *State, edgeStates []*St
 		pre := x.heapArr(st, k, x.heapSort[k])
 		nh := x.ctx.Fresh(fmt.Sprintf("L%d_H_%s", li.ordinal, shortKey(k)), x.heapSort[k])
 		st.heap[k] = nh
+		x.heapTypeFacts(k, nh)
 		x.refBound(nh, epoch)
 		if freshOnly[k] {
 			// the loop writes this array only in objects it allocates itself
@@ -936,8 +972,12 @@ func labelOr(a, b string) string {
 
 func (x *Exec) havocAll(st *State) {
 	x.havocN++
+	epoch := x.allocEpoch()
 	for k, s := range x.heapSort {
-		st.heap[k] = x.ctx.Fresh("Hv_"+shortKey(k), s)
+		nh := x.ctx.Fresh("Hv_"+shortKey(k), s)
+		st.heap[k] = nh
+		x.heapTypeFacts(k, nh)
+		x.refBound(nh, epoch)
 	}
 	x.note("a call without contract havocs the whole heap")
 }
@@ -1059,4 +1099,25 @@ func calledNames(c *Contract, fname string) []string {
 		walk(cc.C.E)
 	}
 	return out
+}
+
+var propPrefix = regexp.MustCompile(`^(C[0-9]{2,3})\.`)
+
+// attribute decides which properties an obligation counts for: a label prefix "C09." wins;
+// frame obligations go to the contract's frameprop; everything else to the contract's properties.
+func (x *Exec) attribute(fr *Frame, kind, label string) []string {
+	if m := propPrefix.FindStringSubmatch(label); m != nil {
+		return []string{m[1]}
+	}
+	c := fr.contract
+	if c == nil && x.rootFrame != nil {
+		c = x.rootFrame.contract
+	}
+	if c == nil {
+		return nil
+	}
+	if kind == "frame" && len(c.FrameProps) > 0 {
+		return c.FrameProps
+	}
+	return c.Props
 }
